@@ -387,21 +387,28 @@ def _eval_children(node: ast.AST):
         return [node.value] if node.value is not None else []
     if isinstance(node, ast.Assign):
         return [node.value]                 # the targets are evaluated after the value
+    if isinstance(node, ast.BoolOp):
+        return [node.values[0]]             # the other operands are evaluated conditionally
+    if isinstance(node, ast.IfExp):
+        return [node.test]
+    if isinstance(node, ast.NamedExpr):
+        return [node.value]
     return None
 
 
-def _first_evaluated(node: ast.AST, x: str, local_names: set) -> bool:
-    """the single load of `x` in `node` is evaluated unconditionally, and everything evaluated before it is a constant or
-    the lookup of a name / attribute chain that is not rooted at a local of the function (a module, a module-level
-    function): then `x = E` directly before `node` may be folded into it whatever E does"""
-    if isinstance(node, ast.Name):
-        return node.id == x
+def _first_evaluated(node: ast.AST, is_target, local_names: set) -> bool:
+    """the single sub-expression of `node` selected by `is_target` is evaluated unconditionally, and everything evaluated
+    before it is a constant or the lookup of a name / attribute chain that is not rooted at a local of the function (a
+    module, a module-level function): then `x = E` directly before `node` may be folded into its single use in `node`
+    (or a walrus at that place hoisted in front of the statement) whatever E does"""
+    if is_target(node):
+        return True
     kids = _eval_children(node)
     if kids is None:
         return False
     for c in kids:
-        if _loads(c, x):
-            return _first_evaluated(c, x, local_names)
+        if any(is_target(n) for n in ast.walk(c)):
+            return _first_evaluated(c, is_target, local_names)
         if isinstance(c, ast.Constant):
             continue
         if _chain(c) and _root(c) not in local_names and all(isinstance(n.ctx, ast.Load) for n in ast.walk(c)
@@ -411,12 +418,80 @@ def _first_evaluated(node: ast.AST, x: str, local_names: set) -> bool:
     return False
 
 
+def _is_load_of(x: str):
+    return lambda n: isinstance(n, ast.Name) and n.id == x and isinstance(n.ctx, ast.Load)
+
+
+def p_walrus(stmts: list, local_names: set) -> list:
+    """`if (x := E) <rest of test>:` / `t = f((x := E))` / `return ...(x := E)...` with the walrus evaluated first and
+    unconditionally becomes `x = E` followed by the statement reading x"""
+    out = []
+    for st in stmts:
+        head = st.test if isinstance(st, ast.If) else st if isinstance(st, (ast.Assign, ast.Return, ast.Expr)) else None
+        if head is not None:
+            ws = [n for n in ast.walk(head) if isinstance(n, ast.NamedExpr)]
+            if len(ws) == 1 and isinstance(ws[0].target, ast.Name) and not _loads(ws[0].value, ws[0].target.id) \
+                    and not any(isinstance(n, (ast.Lambda, ast.ListComp, ast.SetComp, ast.DictComp, ast.GeneratorExp))
+                                for n in ast.walk(head)) \
+                    and _first_evaluated(head, lambda n: n is ws[0], local_names | {ws[0].target.id}):
+                w = ws[0]
+                x = w.target.id
+                # loads of x elsewhere in the head come after the walrus (it is evaluated first): they read the new value
+                pre = ast.copy_location(ast.Assign(targets=[ast.Name(id=x, ctx=ast.Store())], value=w.value), st)
+
+                class R(ast.NodeTransformer):
+                    def visit_NamedExpr(self, node):
+                        return ast.copy_location(ast.Name(id=x, ctx=ast.Load()), node) if node is w else node
+                if isinstance(st, ast.If):
+                    st.test = R().visit(st.test)
+                else:
+                    st = R().visit(st)
+                ast.fix_missing_locations(pre)
+                ast.fix_missing_locations(st)
+                out.extend([pre, st])
+                continue
+        out.append(st)
+    return out
+
+
+def p_tryelse(stmts: list) -> list:
+    """`try: B except ...: <ends in raise / return> else: E` (no finally) is `try: B except ...: ...` followed by E: the
+    statements after the try run exactly when B completed without an exception, as the else block does"""
+    out = []
+    for st in stmts:
+        if isinstance(st, ast.Try) and st.orelse and not st.finalbody and st.handlers \
+                and all(_terminal(h.body) for h in st.handlers):
+            rest, st.orelse = st.orelse, []
+            out.append(st)
+            out.extend(rest)
+            continue
+        out.append(st)
+    return out
+
+
 def p_temp(stmts: list, fn_body_ref: list, local_names: set = frozenset()) -> list:
     """`x = E; return x` -> `return E`;  `x = E; t = x` -> `t = E` when x is not loaded anywhere else"""
     out, i = [], 0
     while i < len(stmts):
         st = stmts[i]
         nxt = stmts[i + 1] if i + 1 < len(stmts) else None
+        if _reraising_try(st) and nxt is not None:
+            # `try: x = E except ...: raise` followed by `return x` / `t = x` (t a plain name - binding it cannot raise)
+            n1, v1 = _single_assign(st.body)
+            if n1 is not None and sum(_loads(s, n1) for s in fn_body_ref) == 1 \
+                    and sum(1 for s in fn_body_ref for n in ast.walk(s)
+                            if isinstance(n, ast.Name) and n.id == n1 and not isinstance(n.ctx, ast.Load)) == 1:
+                if isinstance(nxt, ast.Return) and isinstance(nxt.value, ast.Name) and nxt.value.id == n1:
+                    st.body = [ast.copy_location(ast.Return(value=v1), st.body[0])]
+                    out.append(st)
+                    i += 2
+                    continue
+                if isinstance(nxt, ast.Assign) and isinstance(nxt.value, ast.Name) and nxt.value.id == n1 \
+                        and len(nxt.targets) == 1 and isinstance(nxt.targets[0], ast.Name):
+                    st.body = [ast.copy_location(ast.Assign(targets=nxt.targets, value=v1), st.body[0])]
+                    out.append(st)
+                    i += 2
+                    continue
         if isinstance(st, ast.Assign) and len(st.targets) == 1 and isinstance(st.targets[0], ast.Name) and nxt is not None:
             x = st.targets[0].id
             total = sum(_loads(s, x) for s in fn_body_ref)
@@ -444,7 +519,7 @@ def p_temp(stmts: list, fn_body_ref: list, local_names: set = frozenset()) -> li
                         and not any(isinstance(n, (ast.NamedExpr, ast.Lambda, ast.ListComp, ast.SetComp, ast.DictComp,
                                                    ast.GeneratorExp, ast.Await, ast.Yield, ast.YieldFrom))
                                     for n in list(ast.walk(nxt)) + list(ast.walk(st.value))) \
-                        and _first_evaluated(nxt, x, local_names):
+                        and _first_evaluated(nxt, _is_load_of(x), local_names):
                     out.append(_Subst({x: st.value}).visit(nxt))
                     i += 2
                     continue
@@ -902,6 +977,9 @@ def normalise_function(fn: ast.FunctionDef, module_funcs: dict, helpers: dict, c
     p_constants(fn, consts)
     for _ in range(3):
         before = ast.dump(fn)
+        local_names = _stored_names(fn) | {a.arg for a in ast.walk(fn.args) if isinstance(a, ast.arg)}
+        fn.body = _map_blocks(fn.body, lambda b: p_walrus(b, local_names))
+        fn.body = _map_blocks(fn.body, p_tryelse)
         fn.body = _map_blocks(fn.body, p_ifexp)
         fn.body = _map_blocks(fn.body, p_polarity)
         fn.body = _map_blocks(fn.body, p_default)
